@@ -803,6 +803,19 @@ def check_C01(tier, seed):
     for i, pth in enumerate(["inc_a_%d.wgsl", "shaders/deep/inc_b_%d.wgsl", "dir with space/inc c_%d.wgsl"]):
         S, has_rt = F.role_shader(rng, big_arrays=False)
         cases.append({"id": "include-%d" % i, "family": "compile-include-variant", "S": S, "opts": dict(F.opts(enc=True, mv="glam", rustfmt=(i == 1)), include=pth % i)})
+    # entry-point input structs (vertex and fragment inputs, never host-shareable) whose @location members carry @size / @align, under every
+    # derive combination: attributes meant for host-shareable structs must not leak onto structs that do not get the derive
+    V3 = {"k": "vec", "n": 3, "s": "f32"}
+    for i, o_ in enumerate([F.opts(enc=True, mv="glam"), F.opts(enc=True, mv="glam", bmv=True), F.opts(enc=True, serde=True), F.opts(bmh=True, bmv=True), F.opts(enc=True, bmh=True, mv="glam")]):
+        S = {"structs": [{"name": "VIn", "members": [{"name": "position", "ty": V3, "io": {"k": "loc", "n": 0}, "size": 16}, {"name": "uv", "ty": {"k": "vec", "n": 2, "s": "f32"}, "io": {"k": "loc", "n": 1}},
+                                                      {"name": "tint", "ty": F.VEC4, "io": {"k": "loc", "n": 2}, "align": 16}]},
+                         {"name": "FIn", "members": [{"name": "pos", "ty": F.VEC4, "io": {"k": "builtin", "b": "position"}}, {"name": "w", "ty": {"k": "scalar", "s": "f32"}, "io": {"k": "loc", "n": 0}, "size": 8},
+                                                      {"name": "c", "ty": F.VEC4, "io": {"k": "loc", "n": 1}}]},
+                         {"name": "Cam", "members": [{"name": "m", "ty": F.VEC4}, {"name": "k", "ty": {"k": "scalar", "s": "f32"}, "size": 16}]}],
+             "globals": [{"name": "cam", "space": "uniform", "group": "0", "binding": "0", "ty": {"k": "struct", "name": "Cam"}}], "consts": [], "overrides": [], "functions": [],
+             "entries": [{"name": "vs_main", "stage": "vertex", "params": [{"k": "struct", "name": "v", "ty": "VIn"}], "result": {"k": "builtin", "b": "position"}, "body": [{"k": "access", "g": "cam", "how": "load"}], "wg": []},
+                         {"name": "fs_main", "stage": "fragment", "params": [{"k": "struct", "name": "f", "ty": "FIn"}], "result": {"k": "loc", "n": 0, "ty": F.VEC4}, "body": [], "wg": []}]}
+        cases.append({"id": "io-attrs-%d" % i, "family": "compile-io-structs-with-size-align", "S": S, "opts": o_})
     # one source and one option vector through both public functions in one process, formatter on: first with an include path whose file does
     # not exist (that call is history only), then embedded, then with a path whose file is in place
     for i in range(2):
@@ -924,6 +937,15 @@ def check_C10(tier, seed):
             if env:
                 c["env"] = env
             cases.append(c)
+    # the same thread is first asked for OTHER representations of the same shaders (history only: not compiled, outside C10's domain):
+    # what a call emits for `vec3<f32>` depends on ITS options, not on what the thread produced before
+    mixed = []
+    for i, c in enumerate(cases):
+        if i % 8 == 0:
+            mixed.append(dict(c, id=c["id"] + "-pre", family="encase-after-other-representation", nocompile=True,
+                              opts=(F.opts(mv="rust"), F.opts(mv="nalgebra", enc=True), F.opts(mv="rust", enc=True, serde=True))[(i // 8) % 3]))
+        mixed.append(c)
+    cases = mixed
     drive_and_judge(rep, "C10", cases, "static", ["structs"], enforce="C10S")
     compiled_and_judge(rep, "C10", cases, "encase", "shim", {"encase"}, keep=["structs"])
     return finish(rep)
@@ -938,6 +960,8 @@ def check_C02(tier, seed):
     rep.add_selftest("MC_Bindings_mut(atomic storage textures emitted as ReadWrite)", run_mc("MC_Bindings.tla", "MC_Bindings_mut.cfg", workers=2, expect_violation=True))
     rep.exhaustive = not quick
     cases = cases_from_S(r.cases, "row", "resource-table", vary_validate=False)
+    # every row also with the generator's own validation on (what the validator reports about a variable is not what wgpu asks about it)
+    cases += [dict(c, id=c["id"] + "-v", opts=dict(c["opts"], validate="all")) for c in cases]
     want = {"wgpu"}
     keep = ["groups", "push_stages", "compute", "fns", "overrides"]
     compiled_and_judge(rep, "C02", cases, "table", "realrun", want, keep=["groups"])
@@ -1158,6 +1182,12 @@ def check_C04(tier, seed):
                for i, ops_ in enumerate(swap_ops)]
     ocases += [{"id": "ops-fmtdrop-%d" % i, "family": "bind-groups-op-sequences-formatter-drops-tail", "S": S3, "opts": F.opts(rustfmt=True), "ops": ops_, "fmt_plan": "near_drop_last"} for i, ops_ in enumerate(swap_ops[:1])]
     ocases += [{"id": "ops-fmtok-%d" % i, "family": "bind-groups-op-sequences-formatter-on", "S": S3, "opts": F.opts(rustfmt=True), "ops": ops_, "fmt_plan": "ok"} for i, ops_ in enumerate(swap_ops)]
+    # the same with a program of more than 64 KiB, 128 KiB and 1 MiB (the embedded source carries a long comment): nothing about the SIZE of
+    # the text exempts the formatter's answer from the comparison
+    for kib in (70, 140, 1100):
+        S3L = dict(S3, comment=(" padding line %d\n" % kib) * (kib * 1024 // 17 + 1))
+        ocases += [{"id": "ops-fmtswap-%dk-%d" % (kib, i), "family": "bind-groups-op-sequences-formatter-swaps-fields", "S": S3L, "opts": F.opts(rustfmt=True), "ops": ops_, "fmt_plan": plan}
+                   for i, (ops_, plan) in enumerate(zip(swap_ops, ("near_field_swap", "near_drop_last")))]
     compiled_and_judge(rep, "C04", ocases, "ops", "shim", want, keep=["groups"])
     compiled_and_judge(rep, "C04", sparse_group_cases(rng, 150 if quick else 3000), "random", "shim", want, keep=["groups"])
     return finish(rep)
@@ -1301,6 +1331,13 @@ def check_C16(tier, seed):
     for i, pth in enumerate([here + "/shaders/main.wgsl", here + "/a.wgsl", here, here + "/", here + "//shaders///main.wgsl", here + "/./a.wgsl", os.path.dirname(here) + "/a.wgsl",
                               here + "/shaders/../a.wgsl", "/a.wgsl", "/", here.upper() + "/a.wgsl", here + "x/a.wgsl"]):
         cases.append({"id": "src-abspath-%d" % i, "family": "source-include-absolute-paths", "S": F.source_shader("p"), "opts": F.opts(include=pth, rustfmt=(i % 3 == 2))})
+    # comment and string lines that LOOK like global directives (`requires ...;`, `enable ...;`, `diagnostic(...)`) in sources that parse
+    for i, blk in enumerate(["/*\nrequires bind group 0 to be set; then draw\n*/\n", "/* notes:\n  enable depth clamp ; see docs\n\trequires  features;\n*/\n", "// requires f16;\n//requires x;\n",
+                              "/*\ndiagnostic(off, derivative_uniformity);\nrequires readonly_and_readwrite_storage_textures;\n*/\n", "/* requires a; */ /* enable b; */\n"]):
+        for j, (name, text) in enumerate(seeds[:2]):
+            for fmt in (False, True):
+                cases.append({"id": "src-directive-like-%d-%d-%d" % (i, j, fmt), "family": "source-directive-like-comments", "wgsl": blk + text + blk, "opts": F.opts(rustfmt=fmt)})
+                cases.append({"id": "src-directive-like-%d-%d-%d-inc" % (i, j, fmt), "family": "source-directive-like-comments", "wgsl": blk + text + blk, "opts": F.opts(rustfmt=fmt, include="shaders/d%d.wgsl" % i)})
     for i, pre in enumerate(["\ufeff", "\ufeff\ufeff", "\u200b", "\u2060", "\ufffe", "\x00", "\ufeff\n"]):
         cases.append({"id": "src-bom-%d" % i, "family": "source-invisible-prefix", "wgsl": pre + "@fragment fn fs_main() {}\n", "opts": F.opts()})
     for i, tail in enumerate(["// trailing comment", "// caf\u00e9", "//", "/* block */ // x", "// a\n// b"]):
